@@ -2783,7 +2783,8 @@ class Cond(Generic[X, R], GFI[X, R]):
         elif discard_ is None:
             merged_discard = discard
         else:
-            merged_discard, _ = self.callee.merge(discard, discard_)
+            # The discard holds the values that were visible under the old condition.
+            merged_discard, _ = self.merge(discard, discard_, tr.check)
         return (
             CondTr(self, check, [new_tr, new_tr_]),
             jnp.where(check, w, w_),
